@@ -47,9 +47,9 @@ type rendCall struct {
 type tracedRenderer struct {
 	via ivg.Destination // non-nil: calls are applied to this wrapper around rd
 	rd  *render.Renderer
-	z  *RecRaster
-	w  *Writer
-	n  int
+	z   *RecRaster
+	w   *Writer
+	n   int
 	// trim: forget old rasteriser calls (long runs); off when the whole log is needed afterwards
 	trim bool
 }
@@ -323,6 +323,49 @@ func driveRend(args []string) error {
 								t := newTracedRenderer(sh.Next(), fmt.Sprintf("curve-zeroarc-smooth/%d/%d", ci, k), cfg.rect)
 								runProg(t, prog)
 								stats["geometry.programs"]++
+								stats["geometry.calls"] += t.n
+							}
+						}
+					}
+				}
+				// the implicit control point of smooth operations does not outlive its path: (a) a path that stops right after a
+				// curve and is never ended (the data ended there), then Reset and a path that begins with a smooth operation
+				// of the same degree, on the same Renderer; (b) a path that ends with a curve, then a path painted with a
+				// gradient (or a flat colour, or not painted and then a painted one) that begins with a smooth operation
+				{
+					sel := func(op string, v int) Call { c := mkCall(op); c.Sel = v; return c }
+					creg := func(c []int, incr int) Call { x := mkCall("SetCReg"); x.C, x.Incr = c, incr; return x }
+					k := 0
+					for _, curve := range []Call{mkCall("AbsQuadTo", 3, -4, 6, 1), mkCall("RelSmoothQuadTo", 3, 1), mkCall("RelCubeTo", 1, -3, 4, -3, 5, 0), mkCall("AbsSmoothCubeTo", 2, 7, 9, 5)} {
+						for _, smooth := range []Call{mkCall("RelSmoothQuadTo", 3, 2), mkCall("AbsSmoothQuadTo", 12, 8), mkCall("RelSmoothCubeTo", 1, 3, 3, 3), mkCall("AbsSmoothCubeTo", 14, 2, 15, 6)} {
+							for variant := 0; variant < 4; variant++ {
+								k++
+								cfg := []rendCfg{cfgs[0], cfgs[7]}[k%2]
+								prog := []Call{resetCall(cfg.vb, defaultPal()), mkCall("StartPath", 1, 2), mkCall("RelLineTo", 2, 1), curve}
+								switch variant {
+								case 0: // (a)
+									prog = append(prog, resetCall(cfg.vb, defaultPal()))
+								case 1: // (b) gradient
+									prog = append(prog, mkCall("ClosePathEndPath"), sel("SetCSel", 10), sel("SetNSel", 10))
+									for s := 0; s < 2; s++ {
+										nn := mkCall("SetNReg", float32(s))
+										nn.Incr = 1
+										prog = append(prog, creg([]int{0, 200 * s, 10, 20, 255}, 1), nn)
+									}
+									nn := mkCall("SetNReg", 0.125)
+									nn.Adj = 6
+									prog = append(prog, nn, sel("SetCSel", 5), creg([]int{0, 2, 10 | 1<<6, 0x80 | 10, 0}, 0))
+								case 2: // (b) flat
+									prog = append(prog, mkCall("ClosePathEndPath"), sel("SetCSel", 5), creg([]int{0, 9, 8, 7, 255}, 0))
+								case 3: // (b) a path that is not painted in between
+									prog = append(prog, mkCall("ClosePathEndPath"), sel("SetCSel", 5), creg([]int{0, 0, 0, 0, 0}, 0),
+										mkCall("StartPath", 0, 0), curve, mkCall("ClosePathEndPath"), creg([]int{0, 9, 8, 7, 255}, 0))
+								}
+								prog = append(prog, mkCall("StartPath", 1, 2), smooth, mkCall("RelLineTo", 1, 1), mkCall("ClosePathEndPath"))
+								t := newTracedRenderer(sh.Next(), fmt.Sprintf("smooth-across-paths/%d/%d", variant, k), cfg.rect)
+								runProg(t, prog)
+								stats["geometry.programs"]++
+								stats["geometry.smooth_across_paths"]++
 								stats["geometry.calls"] += t.n
 							}
 						}
